@@ -885,6 +885,9 @@ func fecCaseConverge(lg *fecLogger, r *vrng, rep *vreport, id int, d, p, dr, pr 
 	case 3: // junk whose type is a function of the seqid (another pattern), ids near the run
 		jd, jp := 1+r.intn(7), 1+r.intn(7)
 		n := 20 + r.intn(320)
+		if lg.on { // the model's insertion sort is quadratic on samples in random order: keep logged junk short
+			n = 10 + r.intn(30)
+		}
 		for i := 0; i < n; i++ {
 			s := first - 5000 - uint32(r.intn(3000)) // behind the run (wraps below 0 for small starts)
 			fecDecode(lg, dec, fecTyped(s, jd, jp, 7))
